@@ -80,6 +80,41 @@ def run_refusals(case, rec):
     rec.nt(n_ref >= 1)
 
 
+def run_refusals_strict_warnings(case, rec):
+    """The same histories in a process that turns warnings into errors (python -W error, pytest filterwarnings =
+    error): a warning issued in the middle of an operation then leaves it as an exception - the tree must be as it
+    was, like after every other refused call.  (The unchanged code issues no warnings: nothing differs then.)"""
+    import warnings
+
+    rec.cls("warnings-are-errors")
+    with warnings.catch_warnings():
+        warnings.simplefilter("error")
+        eng = Engine(case["spec"], typed=case.get("typed", False), spec2=case.get("spec2"), known=engine_known(rec))
+        n_ref = 0
+        for op in case["ops"]:
+            flush_excluded(eng, rec)
+            before = eng.observe_state()
+            out = eng.step(op, check_unchanged=True)
+            rec.evals += 1
+            if out.raised is None:
+                if all_invariants(eng.tree):
+                    rec.cls("abandoned:invariant-broken-by-non-refused-op")
+                    return
+                continue
+            n_ref += 1
+            # whatever made the call raise (a documented refusal, or a warning that this process treats as an error)
+            if eng.observe_state() != before:
+                rec.fail(f"state-changed-by-a-call-that-raised:{out.plan.route.split(':')[0]}:{type(out.raised).__name__}", {"op": op, "raised": repr(out.raised)[:160], "plan": out.plan.status})
+                return
+            inv = all_invariants(eng.tree)
+            if inv:
+                rec.fail(f"raised:{out.plan.route}:invariant:{inv[0][0]}", {"op": op, "detail": inv[0][1]})
+                return
+            if out.plan.status == "valid":
+                return  # the model applied the operation: this history ends here
+        rec.nt(n_ref >= 1)
+
+
 def run_collision_routes(case, rec):
     """Every colliding operation the harness can construct from a state (all
     routes of C03) must leave the tree exactly as it was when it is refused."""
@@ -665,6 +700,7 @@ PARTS = [
     Part("refusals", run_refusals, strategy=refusal_cases, n={"quick": 600, "thorough": 100000}),
     Part("collision-routes", run_collision_routes, strategy=route_cases, n={"quick": 300, "thorough": 60000}),
     Part("faults", run_faults, strategy=fault_cases, n={"quick": 80, "thorough": 10000}),
+    Part("warnings-as-errors", run_refusals_strict_warnings, strategy=refusal_cases, n={"quick": 200, "thorough": 20000}),
     Part("big-merges", run_refusals, strategy=big_merge_cases, n={"quick": 150, "thorough": 5000}),
     Part("big-trees", run_refusals, strategy=big_refusal_cases, n={"quick": 150, "thorough": 10000}),
     optimized_part("C13", ['refusals', 'faults']),
